@@ -263,6 +263,19 @@ func (fr *Frame) backEdge(b, h *ssa.BasicBlock, e *State) {
 		}
 		c.assume(e.reach, c.lemmaInstance(env, cl.Src, cl.File, cl.Line))
 	}
+	// "prestep" clauses: facts about one iteration (pre()/post()), proved at the
+	// end of the body and available to the invariant-preservation obligations
+	if li.headState != nil {
+		for _, cl := range fr.loopClauses(li, "prestep") {
+			env := fr.envAt(b, e, nil)
+			env.atLatch = true
+			env.pre = li.headState
+			env.postPhis = back
+			g := c.evalBool(env, cl.Expr)
+			c.oblige(e, "step", cl.Label, cl.Props, g, pos, fmt.Sprintf("loop %d iteration fact: %s", li.ordinal, cl.Src))
+			c.assume(e.reach, g)
+		}
+	}
 	for _, cl := range fr.loopClauses(li, "invariant") {
 		env := fr.envAt(b, e, back)
 		env.atLatch = true
